@@ -312,6 +312,11 @@ func (f *File) AddChild(child Box, boxStartPos uint64) {
 			f.startSegmentIfNeeded(moof, boxStartPos)
 		}
 		currSeg := f.LastSegment()
+		if currSeg == nil {
+			// No segment start detected (e.g. tfra offsets that do not match), so start one here
+			f.AddMediaSegment(&MediaSegment{StartPos: boxStartPos})
+			currSeg = f.LastSegment()
+		}
 		lastFrag := currSeg.LastFragment()
 		if lastFrag == nil || lastFrag.Moof != nil {
 			currSeg.AddFragment(&Fragment{StartPos: boxStartPos})
